@@ -24,10 +24,12 @@ NOT NULL the flush must raise; where it satisfies them it must not.  Outcomes th
 in the session -- "will not proceed" warnings --, detached members of collections, an object both deleted and put into a
 collection) accept the documented set.
 
-Catalogued defects of the unchanged tree (``ormworld2.KNOWN_QUIRKS``): C30 owns f7 (row switch between different
-joined-inheritance subclasses), f8 (passive_updates=True leaves a stale foreign key attribute in memory), f9
-(passive_updates=False overwrites a de-association made through an expired many-to-one); f1 f2 f3 f6 belong to C39,
-f4 f10 to C47 -- the explorer adopts the library's behaviour after any of them and goes on.
+Catalogued defects of the unchanged tree (``ormworld2.KNOWN_QUIRKS``): C30 owns f5 (one-to-one take-over leaves the
+displaced child's many-to-one set), f7 (row switch between different joined-inheritance subclasses), f8
+(passive_updates=True leaves a stale foreign key attribute in memory), f9 (passive_updates=False overwrites a
+de-association made through an expired many-to-one), f12 (ValueError from a queued collection removal inside flush), f13
+(row switch keeps the deleted object's other column values); f1 f2 f3 f6 belong to C39, f4 f10 to C47, f11 to C31 -- the
+explorer adopts the library's behaviour after any of them (or stops below that state) and goes on.
 
 Mutations caught (VF_REPO=/tmp/wt-orm2, each gave VIOLATION lines, then reverted):
   * dependency._ManyToManyDP.process_saves: first removed member's association row not deleted -> "database differs ... after flush" (U2)
@@ -138,7 +140,9 @@ def configs(tier):
                 if tier == "quick" and ri == 0 and wk not in QUICK_EMPTY:
                     continue  # quick: the empty root once per world
                 deep = tier != "quick" and ri == 1 and ((af and wk in DEEP_ON) or (not af and wk in DEEP_OFF))
-                out.append(dict(world=wk, autoflush=af, root=ri, depth=3 if deep else 2, kinds=None))
+                nparts = 8 if deep else (3 if ri in (1, 2, 3) else 1)
+                for part in range(nparts):
+                    out.append(dict(world=wk, autoflush=af, root=ri, depth=3 if deep else 2, kinds=None, part=part, nparts=nparts))
     for wk in [("U1", SU), ("U1", ORPH), ("U2", ALL), ("U3", ALL), ("U7", ORPH), ("U4", SU)]:
         for af in (True, False):
             for ri in ((1,) if tier == "quick" else (0, 1, 2)):
@@ -178,7 +182,7 @@ def run_shard(shard, tier, rec):
         r = step_checked(rec, w, shard, hist_, ms, op)
         return r
 
-    ow.explore_with_probes(rec, (h, m0, ("root", repr(shard))), enabled, step, shard["depth"])
+    ow.explore_with_probes(rec, (h, m0, ("root", repr(shard))), enabled, step, shard["depth"], part=shard.get("part", 0), nparts=shard.get("nparts", 1))
 
 
 OWN = ("f5", "f7", "f8", "f9", "f12", "f13")
